@@ -4,6 +4,7 @@ import random
 import jax
 import numpy as onp
 
+from rex.artificial import generate_graphs
 from rex.graph import Graph
 
 from . import compiled, gen
@@ -269,4 +270,92 @@ def buffer_job(job):
         gs_f = compiled.CompiledRunner(G, nodes, cfg, jit=True).exec_history(gs0, hist)
         log = compiled.arun.project_log(probes.LOG.snapshot())
         out["runs"].append(compiled.project_run(st, cfg, gs0, hist, log, gs_f, _rng_index(gs0, cfg), f"{job.get('id')}/buf{vi}"))
+    return out
+
+
+# ----------------------------------------------------------------------------------------------
+# C10 end to end: compiled system with a trainable (zoh) delay set to d  ==  compiled system with a static delay d
+# ----------------------------------------------------------------------------------------------
+def _clip(d, lo, hi):
+    return lo if d < lo else hi if d > hi else d
+
+
+def c10_e2e_job(job):
+    """job: cfg (one connection has 'train': {min, max}), variants: [{d, how in 'dist'|'init_delays'|'params'}], mode, prune, ts_max.
+
+    System A: the trainable connection (graph generated by rex with the minimal delay, window extended at compile time), run with the delay
+    set to d.  System B: the same nodes, the connection has the static delay clip(d, min, max); its own generated graph.  Both are rolled out
+    over the whole horizon; A's run must be a behaviour of RexRun (with ZohApply on the trainable input) whose every common step sees what
+    B's step saw (clauses MatchesAsync_* with B's probe log as the reference)."""
+    import copy
+
+    from . import probes, trace
+
+    cfg = job["cfg"]
+    tc = [c for c in cfg["conns"] if "train" in c][0]
+    key = trace.conn_id(tc)
+    out = dict(static=[], runs=[], meta=[], notes=[])
+    mode, prune = job["mode"], job["prune"]
+    for vi, var in enumerate(job["variants"]):
+        d, how = var["d"], var["how"]
+        deff = _clip(d, tc["train"]["min"], tc["train"]["max"])
+        cfgA = copy.deepcopy(cfg)
+        ta = [c for c in cfgA["conns"] if "train" in c][0]["train"]
+        params = None
+        if how == "dist":
+            ta["d0"] = deff  # TrainableDist.create refuses values outside [min, max]
+        elif how == "init_delays":
+            ta["d_init"] = d
+        else:
+            ta["from_params"] = True
+        cfgB = copy.deepcopy(cfg)
+        tb = [c for c in cfgB["conns"] if "train" in c][0]
+        del tb["train"]
+        tb["cdist"] = [deff]
+        res = {}
+        for tag, c_ in (("A", cfgA), ("B", cfgB)):
+            nodes = gen.build_nodes(c_, log=True)
+            if how == "params":
+                nodes[tc["in"]].p = d  # the receiving node's param is the delay (ticks); it also enters the probe hash, in both systems
+            g_raw = generate_graphs(nodes, ts_max=job["ts_max"] / probes.GRID, rng=jax.random.PRNGKey(job.get("seed", 0)), num_episodes=1)
+            try:
+                G = Graph(nodes=dict(nodes), supervisor=nodes[c_["sup"]], graphs_raw=g_raw, supergraph=compiled.MODES[mode], prune=prune, progress_bar=False)
+            except KeyError as e:
+                out["notes"].append(f"{tag}: Graph() raised KeyError {e} (DESIGN 10.4)")
+                res = None
+                break
+            gs0 = G.init(jax.random.PRNGKey(job.get("seed", 0)))
+            st = compiled.project_static(G, c_, 0, compiled.buffer_sizes_of(gs0), f"{job['id']}/v{vi}{tag}/{mode}/{'prune' if prune else 'noprune'}/e0", prune)
+            rngidx = _rng_index(gs0, c_)
+            hist = [f"rollout:{G.max_steps}"]
+            probes.LOG.clear()
+            rn = compiled.CompiledRunner(G, nodes, c_, jit=bool(var.get("jit", True)))
+            gs_f = rn.exec_history(gs0, hist)
+            log = compiled.arun.project_log(probes.LOG.snapshot())
+            res[tag] = dict(G=G, gs0=gs0, gs_f=gs_f, st=st, log=log, rngidx=rngidx, hist=hist, raw=compiled.raw_episode(g_raw, 0),
+                            alpha=float(onp.asarray(gs0.inputs[tc["in"]][tc.get("name", tc["out"])].delay_dist.alpha)) if tag == "A" else None)
+        if res is None:
+            continue
+        A, B = res["A"], res["B"]
+        # precondition of the comparison: the two systems have the same vertices (the trainable connection is non-blocking: it does not time anything)
+        if A["raw"][0] != B["raw"][0]:
+            out["notes"].append(f"v{vi}: the generated graphs of the two systems have different vertices; pair skipped")
+            continue
+        ref = {n["name"]: [] for n in cfg["nodes"]}
+        for le in compiled.log_for_run(B["log"], cfgB, B["rngidx"]):
+            ref[le["kind"]].append(le)
+        for k in ref:  # indexed by sequence number in RexRun
+            ref[k] = sorted(ref[k], key=lambda e: e["seq"])
+            assert [e["seq"] for e in ref[k]] == list(range(len(ref[k]))), "reference log has gaps"
+        train = {tc["in"]: {tc["out"]: dict(d=deff, W=int(tc["window"]))}}
+        tA = compiled.project_run(A["st"], cfgA, A["gs0"], A["hist"], A["log"], A["gs_f"], A["rngidx"], f"{job['id']}/v{vi}A", ref=ref, train=train)
+        tB = compiled.project_run(B["st"], cfgB, B["gs0"], B["hist"], B["log"], B["gs_f"], B["rngidx"], f"{job['id']}/v{vi}B")
+        out["static"] += [A["st"], B["st"]]
+        out["runs"] += [tA, tB]
+        sent = [r["end"] for r in A["raw"][0][tc["out"]]]
+        starts = [r["start"] for r in A["raw"][0][tc["in"]]]
+        for tag in ("A", "B"):
+            out["meta"].append(dict(variant=var, deff=deff, system=tag, key=key, skip=bool(tc["skip"]), sent=sent, starts=starts, alpha=A["alpha"],
+                                    train=tc["train"], window=int(tc["window"]), period_out=[n for n in cfg["nodes"] if n["name"] == tc["out"]][0]["period"],
+                                    nlog=len(res[tag]["log"]), mode=mode, prune=prune))
     return out
